@@ -6,6 +6,8 @@ import (
 	"github.com/ipld/go-ipld-prime/codec/dagjson"
 	selectorparse "github.com/ipld/go-ipld-prime/traversal/selector/parse"
 	"io"
+	"runtime"
+	"runtime/debug"
 	"strings"
 
 	"github.com/ipld/go-ipld-prime/datamodel"
@@ -329,5 +331,71 @@ func c10GrowthProbe([]string) int {
 	n := 0
 	err = traversal.WalkAdv(root, sel, func(traversal.Progress, datamodel.Node, traversal.VisitReason) error { n++; return nil })
 	fmt.Println("walk finished, visits:", n, "err:", err)
+	c10GrowthFamily()
 	return 0
+}
+
+// c10GrowthFamily: the cost of walking a recursive selector must grow with the DATA, not with a power of its
+// depth. A fixed family of recursive sequences (limit none; the grammar of the recursion-limit sweep, 1–3
+// members, drawn with a fixed PRNG) is walked over one-child list chains of depth 8 and 16 with the collector
+// off; the bytes allocated (runtime.MemStats.TotalAlloc — a step count that does not depend on the clock or
+// the load of the machine) may at most grow 12-fold for twice the depth (linear is 2, quadratic 4). Each
+// selector is printed before it is walked, so that a death by the address-space limit names it.
+// (A seeding sub-agent noticed in passing that edges in NESTED unions still doubled the selector at every
+// level after the substitute-once repair; fixed again, §4.)
+func c10GrowthFamily() {
+	debug.SetGCPercent(-1)
+	chain := func(depth int) datamodel.Node {
+		v := model.Int(1)
+		for d := 0; d < depth; d++ {
+			v = model.List(v)
+		}
+		n, _ := build.Plain(basicnode.Prototype.Any, v)
+		return n
+	}
+	c8, c16 := chain(8), chain(16)
+	E := func() *selgen.Sel { return &selgen.Sel{Kind: "edge"} }
+	M := func() *selgen.Sel { return &selgen.Sel{Kind: "match"} }
+	U := func(ms ...*selgen.Sel) *selgen.Sel { return &selgen.Sel{Kind: "union", Members: ms} }
+	A := func(n *selgen.Sel) *selgen.Sel { return &selgen.Sel{Kind: "all", Next: n} }
+	I := func(n *selgen.Sel) *selgen.Sel { return &selgen.Sel{Kind: "index", Index: 0, Next: n} }
+	parts := []func() *selgen.Sel{
+		E, func() *selgen.Sel { return U(E()) }, func() *selgen.Sel { return U(E(), E()) }, func() *selgen.Sel { return U(M(), E()) },
+		func() *selgen.Sel { return U(U(E(), M()), E()) }, func() *selgen.Sel { return U(U(E()), U(E())) }, func() *selgen.Sel { return U(U(U(E(), E()), M()), E()) },
+		func() *selgen.Sel { return U(A(E()), I(E())) }, M,
+	}
+	explorers := []func(n *selgen.Sel) *selgen.Sel{A, I, func(n *selgen.Sel) *selgen.Sel { return U(A(n), I(n)) }}
+	r := fw.NewRNG(0x6120)
+	measure := func(root datamodel.Node, sel selector.Selector) uint64 {
+		var m0, m1 runtime.MemStats
+		runtime.ReadMemStats(&m0)
+		traversal.Progress{Budget: &traversal.Budget{NodeBudget: 100000, LinkBudget: 1}}.WalkAdv(root, sel, func(traversal.Progress, datamodel.Node, traversal.VisitReason) error { return nil })
+		runtime.ReadMemStats(&m1)
+		return m1.TotalAlloc - m0.TotalAlloc
+	}
+	for k := 0; k < 120; k++ {
+		var ms []*selgen.Sel
+		for j := 0; j < 1+r.Intn(3); j++ {
+			ms = append(ms, explorers[r.Intn(len(explorers))](parts[r.Intn(len(parts))]()))
+		}
+		seq := U(ms...)
+		if len(ms) == 1 {
+			seq = ms[0]
+		}
+		if !strings.Contains(seq.String(), "@") {
+			continue
+		}
+		s := &selgen.Sel{Kind: "rec", Limit: -1, Seq: seq}
+		sel, err := selector.CompileSelector(fnode.New(s.Spec()))
+		if err != nil || sel == nil {
+			continue
+		}
+		fmt.Printf("{\"Selector\":%q,\"Phase\":\"start\"}\n", s.String())
+		a8 := measure(c8, sel)
+		a16 := measure(c16, sel)
+		fmt.Printf("{\"Selector\":%q,\"Phase\":\"done\",\"A8\":%d,\"A16\":%d}\n", s.String(), a8, a16)
+		if a16 > 256<<20 {
+			debug.FreeOSMemory()
+		}
+	}
 }
